@@ -42,12 +42,15 @@ func hC09Files() []hC09File {
 		{"calendar.txt", []string{"service_id", "monday", "tuesday", "wednesday", "thursday", "friday", "saturday", "sunday", "start_date", "end_date"},
 			[][]string{{"sv1", "1", "1", "1", "1", "1", "0", "0", "20240101", "20241231"}, {"sv2", "0", "0", "0", "0", "0", "1", "1", "20240101", "20240630"}},
 			[][]string{{"", "1", "1", "1", "1", "1", "0", "0", "20240101", "20241231"}, {"svx", "1", "1", "1", "1", "1", "0", "0", "2024010", "20241231"},
-				{"svx", "1", "1", "1", "1", "1", "0", "0", "20240101", "20241345"}, {"svx", "1", "", "1", "1", "1", "0", "0", "20240101", "20241231"}},
-			[]string{"blank service_id", "unparsable start_date", "unparsable end_date", "blank weekday"}},
+				{"svx", "1", "1", "1", "1", "1", "0", "0", "20240101", "20241345"}, {"svx", "1", "", "1", "1", "1", "0", "0", "20240101", "20241231"},
+				{"svx", "1", "1", "1", "1", "1", "0", "0", "20240101", "20240230"}, {"svx", "1", "1", "1", "1", "1", "0", "0", "20230229", "20241231"}},
+			[]string{"blank service_id", "unparsable start_date", "unparsable end_date", "blank weekday", "impossible end day", "impossible start day"}},
 		{"calendar_dates.txt", []string{"service_id", "date", "exception_type"},
 			[][]string{{"sv1", "20240704", "2"}, {"sv3", "20240705", "1"}},
-			[][]string{{"", "20240704", "1"}, {"sv1", "2024070x", "1"}, {"sv1", "20240704", ""}, {"sv1", "20250101", "3"}, {"svnew", "20250101", "7"}},
-			[]string{"blank service_id", "unparsable date", "blank exception type", "unknown exception type on a known service", "unknown exception type on a new service"}},
+			[][]string{{"", "20240704", "1"}, {"sv1", "2024070x", "1"}, {"sv1", "20240704", ""}, {"sv1", "20250101", "3"}, {"svnew", "20250101", "7"},
+				{"sv1", "20240431", "1"}, {"svghost", "20240230", "1"}},
+			[]string{"blank service_id", "unparsable date", "blank exception type", "unknown exception type on a known service", "unknown exception type on a new service",
+				"impossible day on a known service", "impossible day on a new service"}},
 		{"shapes.txt", []string{"shape_id", "shape_pt_lat", "shape_pt_lon", "shape_pt_sequence"},
 			[][]string{{"sh1", "1.5", "2.5", "1"}, {"sh1", "1.6", "2.6", "2"}},
 			[][]string{{"", "1", "2", "3"}, {"sh1", "", "2", "3"}, {"sh1", "1", "2", ""}, {"sh1", "abc", "2", "3"}, {"sh1", "1", "abc", "3"}, {"sh1", "1", "2", "x"}},
